@@ -246,6 +246,14 @@ Definition exp_rprocs (c : ctx) (busy : list Z) (pend : list notif) : list Z :=
                         && (Z.eqb (max_rank c a pend) 2
                             || (Z.eqb (max_rank c a pend) 3 && negb (seq_of c (snd n))))) pend).
 
+(* the action pending for application a, as a rank (0 = none), read from the handler's job sets *)
+Definition pending_rank (c : ctx) (h : handler) (a : Z) : Z :=
+  if zmem a (h_stop h) then 4
+  else if zmem a (h_rapp h) then 3
+  else if existsb (of_app c a) (h_rproc h) then 2
+  else if existsb (of_app c a) (h_cont h) then 1
+  else 0.
+
 Fixpoint nodupb (l : list Z) : bool :=
   match l with [] => true | x :: r => negb (zmem x r) && nodupb r end.
 
